@@ -22,6 +22,9 @@ CHECKS = {
     "C03": ("exploration", "runtime monitor: independent header re-labeller + independent parser comparing unknown-block payloads, order and string-table prefix of the saved output",
             "Type-table entries are renamed outside the library (exhaustive subsets for small tables, singletons/full/random otherwise); the output of raw and default saves must keep "
             "every block at its index with its type name, declared size and payload bytes, and every input string index must still denote the same string.", "3/C03"),
+    "C04": ("exploration", "runtime monitor: graph snapshots (object identity, hook-located reference slots, canonical payloads, child lists) before/after sort, prune, shape-order and default save, compared by a reference model of 'permute and prune only'",
+            "Each operation is applied to real, synthesised (every block type x version) and API-built graphs; survivors, pruned blocks, reference targets, child sets and payloads are "
+            "compared between the snapshots, sorting twice must be the identity, and the default save must equal explicit Optimize+sort+raw save up to string numbering.", "3/C04"),
     "C05": ("exploration", "hook-based runtime monitor: set of NiRef/NiStringRef objects passing through Sync vs the owner's enumerators, over typed-synthesised instances of every block type x version",
             "All 304 registered block types x 14 versions are instantiated with populated fields by answering the reader through the typed read hook; every reference and "
             "string index that is actually serialised (both directions) must be reported by GetChildRefs/GetPtrs/GetStringRefs, and GetChildIndices must agree with GetChildRefs. "
